@@ -8,8 +8,9 @@ package main
 // impl = {"line": bytes handed to the writer, "writes": number of Write calls, "std": stdlib rendering of
 //         the items (without the newline), "mutated": the event's request was changed by Log,
 //         "env": what Go's time / net/url say about the input — the UTC calendar fields of End,
-//         End.UnixNano(), End.Sub(Start), URL strings (inputs of the Lean model; the calendar and net/url
-//         are not modelled)}
+//         End.UnixNano(), End.Sub(Start) (inputs of the Lean model; the calendar is not modelled) and the URL
+//         strings (the Lean side computes them with its own model of net/url and fails the case when Go's
+//         net/url says otherwise)}
 //      | {"new_err": text}  logger.New refused the format
 //      | {"panic": text}
 
@@ -48,10 +49,13 @@ type c20Req struct {
 }
 
 type c20URL struct {
-	Scheme string `json:"scheme"`
-	Host   string `json:"host"`
-	Path   string `json:"path"`
-	Query  string `json:"query"`
+	Scheme     string `json:"scheme"`
+	Host       string `json:"host"`
+	Path       string `json:"path"`
+	RawPath    string `json:"rawpath,omitempty"`
+	Query      string `json:"query"`
+	ForceQuery bool   `json:"forcequery,omitempty"`
+	Frag       string `json:"frag,omitempty"`
 }
 
 type c20Ev struct {
@@ -78,7 +82,7 @@ func (u *c20URL) url() *url.URL {
 	if u == nil {
 		return nil
 	}
-	return &url.URL{Scheme: u.Scheme, Host: u.Host, Path: u.Path, RawQuery: u.Query}
+	return &url.URL{Scheme: u.Scheme, Host: u.Host, Path: u.Path, RawPath: u.RawPath, RawQuery: u.Query, ForceQuery: u.ForceQuery, Fragment: u.Frag}
 }
 
 func c20Format(items []c20Item) string {
@@ -362,12 +366,25 @@ func genURL(r *hx.Rand) *c20URL {
 	if r.Chance(1, 10) {
 		return nil
 	}
-	return &c20URL{
+	u := &c20URL{
 		Scheme: r.Pick([]string{"http", "https", "", "ws", "tcp"}),
 		Host:   r.Pick([]string{"foo.com", "7.8.9.0:5678", "", "[::1]:80", "hôte"}),
-		Path:   r.Pick([]string{"/", "/foo", "", "/a b", "/é", "/a/b/c", "foo", "/%2F"}),
+		Path:   r.Pick([]string{"/", "/foo", "", "/a b", "/é", "/a/b/c", "foo", "/%2F", "/a/b(1)", "a:b", "*"}),
 		Query:  r.Pick([]string{"", "q=x", "a=1&b=2", "é", "q=a b", "%zz"}),
 	}
+	switch r.Intn(8) { // the URL as a request parser leaves it: the client's own encoding of the path, an empty query
+	case 0:
+		if p, err := url.ParseRequestURI(genWirePath(r)); err == nil {
+			u.Path, u.RawPath = p.Path, p.RawPath
+		}
+	case 1:
+		u.RawPath = r.Pick([]string{"/a%2Fb", "/%zz", "/a%20b", "/a b"}) // mostly not an encoding of Path: ignored by net/url
+	case 2:
+		u.ForceQuery = true
+	case 3:
+		u.Frag = r.Pick([]string{"top", "a b", "é"})
+	}
+	return u
 }
 
 func genEvent(r *hx.Rand) c20Ev {
